@@ -114,23 +114,55 @@ def run(F, R, tier):
         if not r2.require(len(hs) >= 1, (role, "codec"), "no function of the bitmap module creates the %s" % ("zlib encoder" if role.startswith("comp") else "zlib decoder")):
             continue
         for name, b in hs:
+            # the step may be spread over the function and its closures (`write_all(..).and_then(|()| decoder.finish())`)
+            full_ = next((p_ for p_, _ in F.fn_bodies(crates=None) if p_.startswith(RB.rsplit("::", 1)[0] + "::") and p_.rsplit("::", 1)[-1] == name and "{closure" not in p_), None)
+            clos = [F.mir(p_, follow_async=False) for p_, _ in F.fn_bodies(crates=None) if full_ and p_.startswith(full_ + "::{closure")] if full_ else []
+            clos = [c_ for c_ in clos if c_ is not None]
             ctor = b.calls(re.compile(enc_re))
-            wa = b.calls(re.compile(r"(^std::io::Write::write_all$|as std::io::Write>::write_all$)"))
-            fin = b.calls(re.compile(r"::finish$"))
-            sw = L.short_write_sites(b)
+            wa_re, fin_re = re.compile(r"(^std::io::Write::write_all$|as std::io::Write>::write_all$)"), re.compile(r"::finish$")
+            wa_c = [(c_, bi_, t_) for c_ in clos for bi_, t_ in c_.calls(wa_re)]
+            fin_c = [(c_, bi_, t_) for c_ in clos for bi_, t_ in c_.calls(fin_re)]
+            wa = b.calls(wa_re)
+            fin = b.calls(fin_re)
+            sw = L.short_write_sites(b) + [x for c_ in clos for x in L.short_write_sites(c_)]
             r2.site("%s: ctor×%d write_all×%d finish×%d unchecked short writes×%d" % (name, len(ctor), len(wa), len(fin), len(sw)), b.rec["span"])
-            r2.require(bool(ctor) and bool(fin), (name, "codec"), "%s does not construct the zlib codec and finish it" % name)
+            # two complete idioms: the writing codec (new(sink); write_all(input)?; finish()?) and, for the decoder, the reading codec
+            # (new(input); read_to_end(&mut out)?) — which of them the pipeline really is, in which order and on what data, is decided on
+            # the decision tables below; here only that the step is whole and its io::Results are looked at
+            rte = b.calls(re.compile(r"(^std::io::Read::read_to_end$|as std::io::Read>::read_to_end$)")) if role.startswith("decomp") else []
+            if rte and not fin and not wa:
+                r2.site("%s: reading codec, read_to_end×%d" % (name, len(rte)))
+                lim = b.calls(re.compile(r"(^std::io::Read::take$|as std::io::Read>::take$|Read::chain$)"))
+                r2.require(not lim, (name, "codec"), "%s reads the inflated stream through `take`/`chain`: a silently truncated or extended stream is not the encoder's output" % name)
+                for bi, t in rte:
+                    import c01
+                    use = c01.result_use(b, bi)
+                    r2.require(use in ("propagated", "returned", "matched"), (RB + "::" + name, "io-result", "read_to_end", use), "%s: the io::Result of read_to_end is %s" % (name, use), t["sp"])
+                continue
+            r2.require(bool(ctor) and bool(fin or fin_c), (name, "codec"), "%s does not construct the zlib codec and finish it" % name)
             for bi, t in sw:
                 r2.fail((RB + "::" + name, "short-write"), "%s feeds the codec with `Write::write` and never inspects the byte count: large inputs are truncated (use write_all)" % name, t["sp"])
-            r2.require(bool(wa) or bool(b.calls(L.IO_WRITE)), (name, "no-write"), "%s never writes its input into the codec" % name)
+            r2.require(bool(wa or wa_c) or bool(b.calls(L.IO_WRITE)), (name, "no-write"), "%s never writes its input into the codec" % name)
+            for c_, bi, t in wa_c + fin_c:
+                # inside a closure: its value is the closure's result, which a combinator hands on (that the combinator chain ends in `?`/a match
+                # is what the pipeline tables below require: write_all ✓ and finish ✓ on every accepting path)
+                import c01
+                use = c01.result_use(c_, bi)
+                r2.require(use in ("propagated", "returned", "matched"), (RB + "::" + name, "io-result", M.callee(t).rsplit("::", 1)[-1], use), "%s: the io::Result of %s is %s" % (name, L.short(M.callee(t)), use), t["sp"])
             for bi, t in fin + wa:
                 import c01
                 use = c01.result_use(b, bi)
+                if use == "passed":
+                    # handed to a Result combinator (`.and_then(..)`, `.map_err(..)`) — whether the chain's outcome is inspected is again the
+                    # pipeline tables' business
+                    nxt = [t2 for _, t2 in b.calls(re.compile(r"Result(<.*>)?::(and_then|map_err|map|or_else)$"))]
+                    if nxt:
+                        continue
                 r2.require(use in ("propagated", "returned", "matched"), (RB + "::" + name, "io-result", M.callee(t).rsplit("::", 1)[-1], use), "%s: the io::Result of %s is %s" % (name, L.short(M.callee(t)), use), t["sp"])
     # the two pipelines on their decision tables (private helpers inlined, so it does not matter how the steps are split up):
     #   write: roaring serialize_into(self.0) ✓ → zlib(write_all ✓, finish ✓) → Base64Url
     #   read : Base64Url decode ✓ (after the optional legacy Base64 layer) → unzlib(write_all ✓, finish ✓) → roaring deserialize_from ✓
-    POPQ = (r"RoaringBitmap::\w+$|Zlib(En|De)coder(<.*>)?::new$|write_all$|Write::write$|::finish$|BaseEncoding::(en|de)code$|Compression::\w+$|Default>::default$|from_utf8$|serialized_size$")
+    POPQ = (r"RoaringBitmap::\w+$|Zlib(En|De)coder(<.*>)?::new$|write_all$|Write::write$|::finish$|read_to_end$|Read::take$|BaseEncoding::(en|de)code$|Compression::\w+$|Default>::default$|from_utf8$|serialized_size$")
     sfn = RB + "::serialize_compressed_base64"
     if F.hir(sfn) is not None:
         tabw = SR.Table(F, sfn, opaque=POPQ, rule=r2, inline_depth=5)
@@ -161,10 +193,17 @@ def run(F, R, tier):
             zn = q.calls(r"ZlibDecoder(<.*>)?::new$")
             df = [e for e in q.calls(r"RoaringBitmap::deserialize_from$") if q.succeeded(e) is True]
             good = bool(dec) and "Base64Url" in str(dec[-1].args[1]) and len(zn) == 1 and bool(wa) and len(fin) == 1 and len(df) == 1
+            rte = [e for e in q.calls(r"read_to_end$") if q.succeeded(e) is True]
             if good:
                 outer = ("payload", dec[-1].result.t, "Ok", 0)
                 good = (any(SR.derives(e.args[0], zn[0].result.t) and SR.derives(e.args[1], outer) for e in wa) and SR.derives(fin[0].args[0], zn[0].result.t)
                         and SR.derives(df[0].args[0], fin[0].result.t) and SR.derives(q.ret, df[0].result.t))
+            elif bool(dec) and "Base64Url" in str(dec[-1].args[1]) and len(zn) == 1 and len(rte) == 1 and not wa and not fin and len(df) == 1:
+                # the reading form: ZlibDecoder::new(<the decoded bytes>) read to its end — by the decoder itself, not through an adaptor — into
+                # the buffer roaring then deserialises from
+                outer = ("payload", dec[-1].result.t, "Ok", 0)
+                good = (SR.derives(zn[0].args[0], outer) and SR.pure(rte[0].args[0], zn[0].result.t) and SR.derives(df[0].args[0], sym.term(rte[0].args[1]))
+                        and SR.derives(q.ret, df[0].result.t))
             if not r2.require(good, ("deserialize", "pipeline"), "deserialize pipeline is not Base64Url decode ✓ → unzlib write_all ✓ / finish ✓ → roaring deserialize_from ✓: %s" % [str(e)[:60] for e in q.events][:9]):
                 okr = False
         r2.site("deserialize: base64url → unzlib → roaring on %d accepting path(s): %s" % (len(tabr.ok()), okr))
